@@ -116,7 +116,10 @@ def gen_op(rng, r, weights, bad_rate=0.08, max_pool=7, max_rows=9):
                 if form == 'row' and rng.random() < 0.2:
                     name = rng.choice(NAMES)
                     kind = dict(cols).get(name, 'KMixed')
-                return {'op': 'setcell', 't': ti, 'name': name, 'addr': {'k': form, 'i': i},
+                addr = {'k': form, 'i': i}
+                if form == 'row' and rng.random() < 0.4:
+                    addr['via'] = 'iter'
+                return {'op': 'setcell', 't': ti, 'name': name, 'addr': addr,
                         'rhs': {'k': 'scalar', 'v': pyobs.enc(pick_value(rng, kind, bad_rate))}}
             if form == 'slice':
                 a = rng.choice([None, 0, 1, 2, -1, -2, n, n + 2])
